@@ -27,6 +27,7 @@ import time
 import z3
 
 REPO = os.environ.get('VP_REPO', '/repo')
+LOOP_BOUND = 2          # loops only run over tuples whose length is a decision in {0, 1, 2}: the bound is never hit
 
 SHIM = r'''
 #include "Python.h"
@@ -202,7 +203,7 @@ MAY_RUN_PYTHON = {
     'PyObject_RichCompareBool': '__eq__ of an operand',
     'PyObject_GetItem': '__getitem__',
 }
-EXOTIC = {'PyObject_IsTrue', 'PyDict_GetItem', 'PyDict_SetItem', 'PyObject_IsInstance'}
+EXOTIC = {'PyObject_IsTrue', 'PyDict_GetItem', 'PyDict_SetItem', 'PyObject_IsInstance', 'PyObject_RichCompareBool'}
 
 
 class Exec:
@@ -215,6 +216,11 @@ class Exec:
 
     # ---- decisions -----------------------------------------------------------
     def decide(self, what, options):
+        if self.foreign and 'str_registry' not in what:
+            # inside the re-entered changed(): its only effects on the caller's heap are "caches and snapshot released,
+            # new snapshot stored" or "released, then failed" (both fields are assigned at the very end), selected by
+            # the outcome of its first attribute access; every other internal outcome takes its first option
+            return options[0]
         if self.pos < len(self.script):
             c = self.script[self.pos]
             if c >= len(options):
@@ -321,6 +327,8 @@ class Exec:
     # ---- havoc -----------------------------------------------------------------
     def havoc(self, api, callsite):
         """Foreign Python code runs here; it may call self.changed() (the real LB_clear is executed)."""
+        if self.foreign:
+            return          # no havoc inside the havoc
         if api in EXOTIC and not self.opts.get('exotic', True):
             return
         if self.havocs >= self.opts.get('max_havocs', 2):
@@ -330,11 +338,12 @@ class Exec:
             self.havocs += 1
             self.stats['havocs'] += 1
             self.epoch += 1
-            self.trace.append('  >> LB_clear(self) executed')
+            fn = 'LB_clear' if self.self_struct == 'LB' else 'verify_changed'
+            self.trace.append('  >> %s(self) executed' % fn)
             depth = self.depth
             self.foreign += 1
             try:
-                self.call_internal('LB_clear', [self.selfobj])
+                self.call_internal(fn, [self.selfobj] if fn == 'LB_clear' else [self.selfobj, None])
             finally:
                 self.foreign -= 1
             self.depth = depth
@@ -426,8 +435,8 @@ class Exec:
         visited = {}
         while True:
             visited[block] = visited.get(block, 0) + 1
-            if visited[block] > 1:
-                raise Inconclusive('loop in %s at %s (no unrolling implemented)' % (name, block))
+            if visited[block] > LOOP_BOUND + 2:
+                raise Inconclusive('loop in %s at %s exceeds the unrolling bound %d' % (name, block, LOOP_BOUND))
             nxt = None
             for ins in f.blocks[block]:
                 r = self.step(f, ins, env, prev if prev != '%entry' else f.entry_label, name)
@@ -474,6 +483,8 @@ class Exec:
         a = argtext.strip()
         if 'getelementptr' in a and '(' in a:
             m = re.search(r'@([\w.]+)', a)
+            if m and not m.group(1).startswith('.str'):
+                return self.global_obj(m.group(1))        # address of (the first field of) a global object
             return ('cstr', m.group(1) if m else a)
         if a.startswith('bitcast') or ' bitcast (' in a:
             m = re.search(r'bitcast \((.*) to ', a)
@@ -590,7 +601,8 @@ class Exec:
         return table[pred](x, y)
 
     # ---- memory ------------------------------------------------------------------
-    FIELD_NAMES = {('%struct.LB', (1,)): '_cache', ('%struct.LB', (2,)): '_mcache', ('%struct.LB', (3,)): '_scache'}
+    FIELD_NAMES = {('%struct.LB', (1,)): '_cache', ('%struct.LB', (2,)): '_mcache', ('%struct.LB', (3,)): '_scache',
+                   ('%struct.VB', (1,)): '_verify_ro', ('%struct.VB', (2,)): '_verify_generations'}
 
     def load(self, addr):
         if not (isinstance(addr, tuple) and addr[0] == 'addr'):
@@ -627,6 +639,11 @@ class Exec:
     def initial_field(self, base, struct, path):
         nm = self.FIELD_NAMES.get((struct, path))
         if base is self.selfobj and nm:
+            if nm.startswith('_verify'):
+                c = self.decide('initial self->%s' % nm, ['a tuple', 'NULL'])
+                if c == 'NULL':
+                    return None
+                return self.new_obj('tuple', 'self.%s' % nm, 1, ext_min=0)
             c = self.decide('initial self->%s' % nm, ['a dictionary', 'NULL'])
             if c == 'NULL':
                 return None
@@ -720,20 +737,44 @@ def _s_seqtuple(ex, a, site):
     if ex.decide('%s: PySequence_Tuple' % site, ['returns a tuple', 'fails (NULL)']).startswith('fails'):
         return None
     t = ex.new_obj('tuple', 'required-tuple', 1, fresh=True)
-    t.frame = 1
+    t.frame = 0 if ex.foreign else 1
     return t
 
 
-@stub('PyTuple_GET_SIZE', 'length of a tuple: 1 or another value')
+@stub('PyTuple_GET_SIZE', 'length of a tuple: 1 or 2 for `required`, 0..2 for resolution orders (fixed per tuple)')
 def _s_tsize(ex, a, site):
-    return 1 if ex.decide('%s: len(required)' % site, ['== 1', '!= 1']) == '== 1' else 2
+    t = a[0]
+    if getattr(t, 'size', None) is None:
+        if t.label.startswith('required'):
+            t.size = 1 if ex.decide('%s: len(required)' % site, ['== 1', '!= 1']) == '== 1' else 2
+        else:
+            t.size = int(ex.decide('%s: len(%s)' % (site, t.label), ['1', '0', '2']))
+    return t.size
 
 
 @stub('PyTuple_New', 'new tuple (allocation failure outside the claim: non-NULL)')
 def _s_tnew(ex, a, site):
     t = ex.new_obj('tuple', 'new-tuple', 1, fresh=True)
     t.frame = 1
+    t.size = a[0] if a and isinstance(a[0], int) else None
+    if ex.foreign:
+        t.frame = 0
     return t
+
+
+@stub('PyTuple_GetSlice', 'new tuple holding new references to the sliced items, or NULL')
+def _s_tslice(ex, a, site):
+    if ex.decide('%s: PyTuple_GetSlice' % site, ['returns a tuple', 'fails (NULL)']).startswith('fails'):
+        return None
+    t = ex.new_obj('tuple', 'ro-slice', 1, fresh=True)
+    t.frame = 0 if ex.foreign else 1
+    return t
+
+
+@stub('PyObject_RichCompareBool', 'comparison: -1 (error) / 0 / 1; may run Python for exotic operands')
+def _s_rcb(ex, a, site):
+    ex.havoc('PyObject_RichCompareBool', site)
+    return int(ex.decide('%s: comparison' % site, ['0', '1', '-1']))
 
 
 @stub('PyTuple_SET_ITEM', 'stores an item, stealing the reference')
@@ -741,7 +782,8 @@ def _s_tset(ex, a, site):
     t, i, v = a
     t.fields[('%struct.PyTupleObject', (1, i))] = v
     if isinstance(v, Obj):
-        v.frame -= 1                      # stolen: the frame's reference becomes the tuple's
+        if not ex.foreign:
+            v.frame -= 1                  # stolen: the frame's reference becomes the tuple's
         if not v.immortal:
             v.direct = v.direct - 1
             v.lb -= 1
@@ -752,7 +794,7 @@ def _s_tset(ex, a, site):
 @stub('PyDict_New', 'new empty dictionary (allocation failure outside the claim: non-NULL)')
 def _s_dnew(ex, a, site):
     d = ex.new_obj('dict', 'new-dict', 1, fresh=True)
-    d.frame = 1
+    d.frame = 0 if ex.foreign else 1
     return d
 
 
@@ -839,7 +881,12 @@ def _call_python(api):
     def fn(ex, a, site):
         meth = a[1].label if len(a) > 1 and isinstance(a[1], Obj) else ''
         epoch_before = ex.epoch
-        ex.havoc(api, '%s %s' % (site, meth))
+        plain_attr = api == 'PyObject_GetAttr' and any(x in meth for x in ('str_generation', 'str_registry', 'strro'))
+        iter_ro = api == 'PyObject_CallFunctionObjArgs' and isinstance(a[0], Obj) and 'PyTuple_Type' in a[0].label
+        if not ((plain_attr or iter_ro) and not ex.opts.get('exotic', True)):
+            # `_generation`, `_registry`, `ro` are plain attributes / a plain list in every supported configuration:
+            # Python code can only run there for exotic registries (a property), so those points belong to the exotic pass
+            ex.havoc(api, '%s %s' % (site, meth))
         if ex.decide('%s: %s %s' % (site, api, meth), ['returns an object', 'raises (NULL)']).startswith('raises'):
             return None
         c = ex.decide('%s: result' % site, ['a fresh object', 'None'])
@@ -848,7 +895,7 @@ def _call_python(api):
             ex.incref(o)
             return o
         o = ex.new_obj('object', 'result-of-%s' % (meth.replace('@', '') or api), 1, ext_min=0)
-        o.frame = 1
+        o.frame = 0 if ex.foreign else 1
         if 'uncached' in meth:
             o.epoch = epoch_before        # pessimistic: the answer may have been computed before the foreign code mutated
         return o
@@ -871,10 +918,13 @@ TARGETS = {
     '_lookupAll': (['required', 'provided'], ()),
     '_subscriptions': (['required', 'provided'], ()),
     '_adapter_hook': (['provided', 'object', 'name', 'default'], ('name', 'default')),
+    '_verify': ([], ()),
+    'verify_changed': (['ignored'], ()),
 }
 
 
-def analyse(funcs, entry, exotic=True, max_havocs=2, budget_s=60.0, prefix=(), self_struct='LB'):
+def analyse(funcs, entry, exotic=True, max_havocs=2, budget_s=60.0, prefix=(), self_struct=None):
+    self_struct = self_struct or ('VB' if entry in ('_verify', 'verify_changed') else 'LB')
     names, nullable = TARGETS[entry]
     ex = Exec(funcs, entry, len(names), self_struct, opts=dict(arg_names=names, nullable=nullable, exotic=exotic, max_havocs=max_havocs))
     ex.gl = {}
